@@ -170,22 +170,29 @@ Definition op_code (o : op) : Z :=
    before it.  Result (position, code, stale, opcode): code 0 accepted, 1 output differs, 2/3 invalid
    choice, 4 destroyed values differ; stale = the rejected operation went through a dead handle;
    opcode = the code of the rejected operation *)
+Definition quiet_dead (w : sworld) (so : sop) : bool :=
+  match sop_handle so with
+  | Some h => match hget (s_hs w) h with Some e => negb (l_is_alive (s_life w) e) | None => false end
+  | None => false
+  end.
+
+(* [pst]: one of the quiet (deferred) operations accounted to the previous entry went through a dead handle *)
 Fixpoint saccept_z (w : sworld) (tr : list (op * wout * list Z)) (pos : Z)
-                   (pimpl pspec : list N) (ppos pcode : Z) : Z * Z * Z * Z :=
+                   (pimpl pspec : list N) (ppos pcode : Z) (pst : bool) : Z * Z * Z * Z :=
   let prev_ok := nlist_eqb (spec_drops pimpl) (spec_drops pspec) in
   match tr with
-  | [] => if prev_ok then ((-1)%Z, 0%Z, 0%Z, 0%Z) else (ppos, 4%Z, 0%Z, pcode)
+  | [] => if prev_ok then ((-1)%Z, 0%Z, 0%Z, 0%Z) else (ppos, 4%Z, enc_bool pst, pcode)
   | (o, out, eff) :: tr' =>
       let '(w1, out1) := sstep w o (choices_of out) in
       let d1 := rev (cx_drops (se_cx (s_env w1))) in
       match o with
-      | OQuiet _ => saccept_z w1 tr' (pos + 1)%Z pimpl (pspec ++ d1) ppos pcode
+      | OQuiet so => saccept_z w1 tr' (pos + 1)%Z pimpl (pspec ++ d1) ppos pcode (pst || quiet_dead w so)
       | _ =>
           let stale := enc_bool (handle_dead w o) in
-          if negb prev_ok then (ppos, 4%Z, 0%Z, pcode)
+          if negb prev_ok then (ppos, 4%Z, enc_bool pst, pcode)
           else if negb (s_ok w1) then (pos, reject_code w out, stale, op_code o)
           else if negb (wout_eqb_spec out out1) then (pos, 1%Z, stale, op_code o)
-          else saccept_z w1 tr' (pos + 1)%Z (dec_effect_drops eff) d1 pos (op_code o)
+          else saccept_z w1 tr' (pos + 1)%Z (dec_effect_drops eff) d1 pos (op_code o) false
       end
   end.
 
@@ -196,7 +203,7 @@ Definition verdict (h : list Z) (t : list (list Z)) : list Z :=
   let tr3 := pair_tr os t in
   let tr := map (fun x => (fst (fst x), snd (fst x))) tr3 in
   let complete := Nat.eqb (length tr) (length os) in
-  let '(p, c, st, oc) := saccept_z (s_init_env true) tr3 0%Z [] [] 0%Z 0%Z in
+  let '(p, c, st, oc) := saccept_z (s_init_env true) tr3 0%Z [] [] 0%Z 0%Z false in
   [enc_bool complete; p; c; enc_bool (c01_direct tr); enc_bool (c02_direct tr); st; oc].
 
 (* ------------------------------------------------------------------ *)
